@@ -334,13 +334,16 @@ def processK (b : KBlock) : IO (Nat × Nat × Nat) := do   -- (experiments, diff
             IO.println s!"XBAD {b.id} {hd} unparsable observation"
             diffs := diffs + 1
         | [hd, crashS, _rinit, _afterInit, afterNext, inproc] =>
-          -- a single I/O error, execution continued (no model of this: judged only)
+          -- a single I/O error, execution continued: the conclusion and the invariant of `eio_safe_*` / `eio_inv`
           match parseObs (words crashS), parseObs (words afterNext), parseObs (words inproc) with
           | some xo, some ro, some io =>
             let key := cfg?.bind (·.key)
             let selOf (o : Obs) : Option Nat := match o.ret with | .num k => if k = 0 then none else some k | _ => none
+            let ver := cfg?.map (·.version)
             match firstFail (eioChecks env key preV offers settledPre (Judge.viewOfObs io) (selOf io) ++
-                             crashChecks env key preV (Judge.viewOfObs xo) offers settledPre none (Judge.viewOfObs ro) (selOf ro)) with
+                             eioChecks env key preV offers settledPre (Judge.viewOfObs ro) (selOf ro) ++
+                             eioRecordChecks ver preV offers settledPre (Judge.viewOfObs xo) ++
+                             eioRecordChecks ver preV offers settledPre (Judge.viewOfObs ro)) with
             | some why =>
               IO.println s!"J C04 {b.id} step=0 side=impl {hd} {why}"
               jf := jf + 1
